@@ -425,6 +425,35 @@ def cov_table(res):
     return {k: {"taken": v[0], "generated": v[1]} for k, v in sorted(res.coverage.items())}
 
 
+_RE_EXPR = re.compile(r"^  line (\d+), col \d+ to line (\d+), col \d+ of module (\w+): (\d+)")
+
+
+def action_fired(res, module):
+    """How often each action definition of spec/<module>.tla produced a successor, read off TLC's expression-level
+    coverage: the count of the last top-level conjunct of the definition (for modules whose next-state relation is not a
+    plain disjunction of named actions, where TLC reports only "Next")."""
+    lines = (SPEC / f"{module}.tla").read_text().splitlines()
+    defs = []                                  # (name, first line, last line), 1-based
+    for i, l in enumerate(lines, 1):
+        m = re.match(r"^([A-Z]\w*)(\([^)]*\))? ==", l)
+        if m:
+            if defs:
+                defs[-1][2] = i - 1
+            defs.append([m.group(1), i, len(lines)])
+    last = {}
+    for l in res.out.splitlines():
+        m = _RE_EXPR.match(l)
+        if not m or m.group(3) != module:
+            continue
+        a, n = int(m.group(1)), int(m.group(4))
+        for name, lo, hi in defs:
+            if lo <= a <= hi:
+                if name not in last or a >= last[name][0]:
+                    last[name] = (a, max(n, last[name][1]) if name in last and last[name][0] == a else n)
+                break
+    return {k: v[1] for k, v in sorted(last.items())}
+
+
 def check_coverage(res, required, what):
     """Vacuity guard: every action in `required` must have been taken at least once."""
     missing = [a for a in required if res.coverage.get(a, (0, 0))[1] == 0]
